@@ -366,7 +366,12 @@ fn bp_build(c: BuildContext<Dbp>) -> libcnb::Result<BuildResult, TbError> {
 }
 
 // ------------------------------------------------------------------------------------------------ the parent side
-fn self_exe() -> PathBuf { std::env::current_exe().unwrap() }
+/// the path this binary was started under (an absolute path when started by ./check); `current_exe` reads /proc/self/exe,
+/// which names a deleted file once a concurrent `cargo build` has replaced the binary
+fn self_exe() -> PathBuf {
+    let a0 = PathBuf::from(std::env::args().next().unwrap_or_default());
+    if a0.is_absolute() && a0.is_file() { a0 } else { std::env::current_exe().unwrap() }
+}
 fn tbp_path() -> PathBuf { self_exe().parent().unwrap().join("tbp") }
 
 fn spawn_retry(cmd: &mut Command) -> Result<std::process::Output, String> {
@@ -553,7 +558,7 @@ fn generate(tier: &str, seed: u64, emit: &mut dyn FnMut(Case)) {
     } } }
 
     // 3. sampled histories, struct and trait operations mixed
-    let n_layers = if thorough { 6500 } else if search { 400 } else { 300 };
+    let n_layers = if thorough { 6600 } else if search { 400 } else { 300 };
     let maxlen = if thorough { 30 } else { 14 };
     let names = [a.as_str(), bee.as_str(), c3.as_str()];
     for idx in 0..n_layers {
